@@ -299,7 +299,10 @@ def standard_random_specs(tier, seed, n_list, workers_of, steps, count, restarts
             mv = ["sh", "sh"] + [rnd.choice(["sh", "wf"]) for _ in range(n - 2)]
             spec["moves"] = mv
             if "wf" in mv and rnd.random() < 0.5:
-                spec["cap"] = n - 0.75
+                # a cap that really cuts the region (excludes the lattice site below the last interface);
+                # the last ensemble then shoots, so that its loaded path keeps a weight
+                mv[-1] = "sh"
+                spec["cap"] = n - 1.25 if n > 3 else n - 0.75
         if restarts and i % 3 != 0:
             plan = []
             left = steps
